@@ -330,6 +330,19 @@ def BlockExtra (sp : Bool) (cell_slice : Frag) : Rd.R := do
     pure ((Rd.obj "BlockExtra" [("in_msg_descr", t4), ("out_msg_descr", t7), ("account_blocks", t10), ("rand_seed", t11), ("created_by", t12), ("custom", t13)]), cell_slice)
 -- END BlockExtra
 
+-- BEGIN Block
+def Block (sp : Bool) (cell_slice : Frag) : Rd.R := do
+  let (t1, cell_slice) ← Rd.loadBytes 4 cell_slice
+  if (!Rd.veq t1 (Rd.bytesLit [17, 239, 85, 170])) then none else
+  let (t2, cell_slice) ← Rd.loadInt 32 cell_slice
+  let (t3, cell_slice) ← Rd.viaRef Src.BlockInfo cell_slice
+  let (t4, cell_slice) ← Rd.viaRef ValueFlow cell_slice
+  let (c5, cell_slice) ← Rd.loadRef cell_slice
+  let t6 ← Rd.merkleUpdateOrd c5
+  let (t7, cell_slice) ← Rd.viaRef BlockExtra cell_slice
+  pure ((Rd.obj "Block" [("global_id", t2), ("info", t3), ("value_flow", t4), ("state_update", t6), ("extra", t7)]), cell_slice)
+-- END Block
+
 /-- the readers by class name (driver op `tlbsrcblk`) -/
 def readers : List (String × (Bool → Frag → Rd.R)) := [
   ("DepthBalanceInfo", DepthBalanceInfo),
@@ -348,6 +361,7 @@ def readers : List (String × (Bool → Frag → Rd.R)) := [
   ("McBlockExtra", McBlockExtra),
   ("ShardState", ShardState),
   ("AccountBlock", AccountBlock),
-  ("BlockExtra", BlockExtra)]
+  ("BlockExtra", BlockExtra),
+  ("Block", Block)]
 
 end TonVerif.Tlb.SrcBlk
